@@ -275,6 +275,11 @@ func New(o *Options) func() mc.Instance {
 			if _, err := in.r.RIBContents(); err != nil {
 				panic(err)
 			}
+			if o.Checks.GetFold {
+				if _, err := in.getAll(); err != nil {
+					panic(err)
+				}
+			}
 			must(in.r.AddNetworkInstance(V))
 		}
 		return in
